@@ -39,7 +39,7 @@ from itertools import islice
 from threading import Lock, RLock
 from functools import partial, wraps
 from concurrent.futures import Future, ThreadPoolExecutor
-from weakref import WeakKeyDictionary as WeakKeyDict, finalize
+from weakref import WeakKeyDictionary as WeakKeyDict, WeakSet, finalize
 from time import sleep
 from typing import (
     Any, AsyncIterable, Awaitable, Callable, Coroutine, Dict,
@@ -334,6 +334,22 @@ def _future_result(future: 'Future[T]') -> T:
 
 
 _CacheMap = MutableMapping[Tuple[Any, ...], Any]
+
+# The locks of all caches: a child process forked while another thread is
+# inside one of them inherits it locked, with no thread left to release it
+_cache_locks: 'WeakSet[Any]' = WeakSet()
+
+
+def _renew_cache_locks_in_child() -> None:
+    """Make the inherited cache locks usable in a forked child."""
+    for lock in list(_cache_locks):
+        reinit = getattr(lock, '_at_fork_reinit', None)
+        if reinit is not None:
+            reinit()
+
+
+if hasattr(os, 'register_at_fork'):
+    os.register_at_fork(after_in_child=_renew_cache_locks_in_child)
 _AsyncFunc = TypeVar('_AsyncFunc', bound=Callable[..., Awaitable[Any]])
 
 
@@ -455,6 +471,7 @@ def threadsafe_async_cache(
     # finally block below also runs when an abandoned call is garbage
     # collected, which can happen in a thread that is holding the lock
     event_making_lock = RLock()
+    _cache_locks.add(event_making_lock)  # Renewed in a forked child
 
     @wraps(_func)
     async def _wrapper(*args: Any, **kwargs: Any) -> Any:
